@@ -1214,6 +1214,10 @@ func c15r8(c *Ctx) {
 			isBalances := func(e ast.Expr) *types.Var {
 				fld := f.FieldOf(e)
 				if fld == nil {
+					// a table handed to a shared helper (`creditLedger(ec.accounts, deposits)`)
+					fld = lhsFieldA(f, e)
+				}
+				if fld == nil {
 					return nil
 				}
 				mt, ok := fld.Type().Underlying().(*types.Map)
